@@ -55,7 +55,7 @@ Inductive stmt :=
 | SFor (t : target) (it : expr) (b o : stmts)
 | SWhile (t : expr) (b o : stmts)
 | SWith (ctx : expr) (b : stmts)
-| SDef (x : name) (decos evald : exprs) (cbody : stmts)
+| SDef (x : name) (decos evald : exprs) (bases : bool) (cbody : stmts)
       (* def / class statement: its decorators, what else is evaluated when the statement is executed
          (defaults, annotations, base classes) and, for a class, its body *)
 | SOther                                      (* import, del, global, try, ... *)
@@ -200,8 +200,9 @@ Fixpoint hse_s (s : stmt) (wl : list name) : bool :=
   | SFor t it b o => hse_t t wl || hse it wl || hse_ss b wl || hse_ss o wl
   | SWhile _ _ _ => true
   | SWith _ _ => true
-  | SDef x decos evald cbody =>
+  | SDef x decos evald bases cbody =>
       negb (String.eqb x underscore) || negb (match decos with ENil => true | _ => false end)
+      || bases                       (* a class with base classes / keywords: creating it calls their hooks *)
       || hse_l evald wl || hse_ss cbody wl
   | SOther => true
   end
@@ -220,36 +221,157 @@ Fixpoint pointless_from (i : nat) (body : stmts) (wl : list name) : list bool :=
   end.
 Definition pointless (body : stmts) (wl : list name) : list bool := pointless_from 0 body wl.
 
+(* ---- the guards of delete_pointless_statements (fixes.py): try bodies, `_` that is read, iteration ---- *)
+Definition cannot_raise (s : stmt) : bool :=
+  match s with SPass => true | SExpr (EConst _) => true | _ => false end.
+
+(* fixes._is_static_iterable: iterating the value does no more than evaluating the expression *)
+Definition reiterable : list name :=
+  ["range"; "enumerate"; "zip"; "reversed"; "sorted"; "list"; "tuple"; "set"; "frozenset"]%string.
+
+Fixpoint static_iter (e : expr) : bool :=
+  match e with
+  | EConst _ | ESeq _ | EDict _ | EFStr _ | EComp _ _ | EDictComp _ _ _ => true
+  | ECall (EName g) args ENil =>
+      String.eqb g "range"%string || (mem g reiterable && static_iter_l args)
+  | _ => false
+  end
+with static_iter_l (es : exprs) : bool :=
+  match es with ENil => true | ECons e tl => static_iter e && static_iter_l tl end.
+
+(* fixes._iterates_unknown_object, over every sub-tree *)
+Fixpoint iter_unk (e : expr) : bool :=
+  match e with
+  | EConst _ | EName _ => false
+  | EUnary e => iter_unk e
+  | EBin l r => iter_unk l || iter_unk r
+  | ECompare l rs => iter_unk l || iter_unk_l rs
+  | EBoolOp vs => iter_unk_l vs
+  | EIfExp t b o => iter_unk t || iter_unk b || iter_unk o
+  | ESeq es => iter_unk_l es
+  | EDict kvs => iter_unk_l kvs
+  | EAttr e _ => iter_unk e
+  | ESub e i => iter_unk e || iter_unk i
+  | ESlice lo hi st => iter_unk lo || iter_unk hi || iter_unk st
+  | ECall f args kws => iter_unk f || iter_unk_l args || iter_unk_l kws
+  | EStarred e => negb (static_iter e) || iter_unk e
+  | EComp elt gs => iter_unk elt || iter_unk_g gs
+  | EDictComp k v gs => iter_unk k || iter_unk v || iter_unk_g gs
+  | EFStr ps => iter_unk_l ps
+  | EFmt v s => iter_unk v || iter_unk s
+  | ELambda _ ds b => iter_unk_l ds || iter_unk b
+  | ENamed _ v => iter_unk v
+  | EOther es => iter_unk_l es
+  end
+with iter_unk_l (es : exprs) : bool :=
+  match es with ENil => false | ECons e tl => iter_unk e || iter_unk_l tl end
+with iter_unk_g (gs : gens) : bool :=
+  match gs with
+  | GNil => false
+  | GCons _ it ifs rest => negb (static_iter it) || iter_unk it || iter_unk_l ifs || iter_unk_g rest
+  end.
+
+Fixpoint iter_unk_t (t : target) : bool :=
+  match t with
+  | TName _ => false
+  | TAttr e _ => iter_unk e
+  | TSub e i => iter_unk e || iter_unk i
+  | TSeq ts => iter_unk_ts ts
+  | TStar t => iter_unk_t t
+  end
+with iter_unk_ts (ts : targets) : bool :=
+  match ts with TNil => false | TCons t tl => iter_unk_t t || iter_unk_ts tl end.
+
+Fixpoint iter_unk_s (s : stmt) : bool :=
+  match s with
+  | SExpr e => iter_unk e
+  | SAssign ts v => iter_unk_ts ts || iter_unk v
+  | SAug t v => iter_unk_t t || iter_unk v
+  | SPass | SControl _ | SOther => false
+  | SIf t b o => iter_unk t || iter_unk_ss b || iter_unk_ss o
+  | SFor t it b o => negb (static_iter it) || iter_unk_t t || iter_unk it || iter_unk_ss b || iter_unk_ss o
+  | SWhile t b o => iter_unk t || iter_unk_ss b || iter_unk_ss o
+  | SWith ctx b => iter_unk ctx || iter_unk_ss b
+  | SDef _ decos evald _ cbody => iter_unk_l decos || iter_unk_l evald || iter_unk_ss cbody
+  end
+with iter_unk_ss (ss : stmts) : bool :=
+  match ss with SNil => false | SCons s tl => iter_unk_s s || iter_unk_ss tl end.
+
+(* fixes._mentions_underscore: a Name `_` (any context) or a definition named `_` anywhere in the statement *)
+Fixpoint names_t (t : target) : list name :=
+  match t with
+  | TName x => [x]
+  | TAttr e _ => names_of e
+  | TSub e i => names_of e ++ names_of i
+  | TSeq ts => names_ts ts
+  | TStar t => names_t t
+  end
+with names_ts (ts : targets) : list name :=
+  match ts with TNil => [] | TCons t tl => names_t t ++ names_ts tl end.
+
+Fixpoint names_s (s : stmt) : list name :=
+  match s with
+  | SExpr e => names_of e
+  | SAssign ts v => names_ts ts ++ names_of v
+  | SAug t v => names_t t ++ names_of v
+  | SPass | SControl _ | SOther => []
+  | SIf t b o => names_of t ++ names_ss b ++ names_ss o
+  | SFor t it b o => names_t t ++ names_of it ++ names_ss b ++ names_ss o
+  | SWhile t b o => names_of t ++ names_ss b ++ names_ss o
+  | SWith ctx b => names_of ctx ++ names_ss b
+  | SDef x decos evald _ cbody => x :: names_of_l decos ++ names_of_l evald ++ names_ss cbody
+  end
+with names_ss (ss : stmts) : list name :=
+  match ss with SNil => [] | SCons s tl => names_s s ++ names_ss tl end.
+
+Definition mentions_us (s : stmt) : bool := mem underscore (names_s s).
+
+(* the decision for one body: [in_try]: the body is (in) the body of a try statement with handlers;
+   [us_used]: the name `_` is read somewhere in the module *)
+Fixpoint pointless_ctx_from (in_try us_used : bool) (i : nat) (body : stmts) (wl : list name) : list bool :=
+  match body with
+  | SNil => []
+  | SCons s tl =>
+      (negb (hse_s s wl) && (negb (Nat.eqb i 0) || negb (is_docstring s))
+       && (negb in_try || cannot_raise s) && (negb us_used || negb (mentions_us s)) && negb (iter_unk_s s))
+      :: pointless_ctx_from in_try us_used (S i) tl wl
+  end.
+Definition pointless_ctx (in_try us_used : bool) (body : stmts) (wl : list name) : list bool :=
+  pointless_ctx_from in_try us_used 0 body wl.
+
 (* ---------------- parsing.safe_callable_names ---------------- *)
 (* A function definition as safe_callable_names sees it: its name, the statements it passes to
    has_side_effect (the body up to the first blocking statement, that statement included unless it is a
    `return`) and the values of all its `return` statements.  The split is made by core.is_blocking
    (FlowModel); here it is part of the input. *)
-Record fdef := mkF { f_name : name; f_checked : stmts; f_rets : exprs }.
+Record fdef := mkF { f_name : name; f_deco : bool; f_checked : stmts; f_rets : exprs }.
+(* [f_deco]: the definition has decorators (a decorator replaces the function by whatever it returns: skipped) *)
 
 Definition fdef_pure (d : fdef) (safe : list name) : bool :=
-  negb (hse_ss (f_checked d) safe) && negb (hse_l (f_rets d) safe).
+  negb (f_deco d) && negb (hse_ss (f_checked d) safe) && negb (hse_l (f_rets d) safe).
 
 (* one pass of the `for node in function_defs` loop; [acc] = (safe names, indices of safe nodes) *)
-Fixpoint safe_pass (defs : list (nat * fdef)) (shadowed : list name) (safe : list name) (nodes : list nat)
+Fixpoint safe_pass (defs : list (nat * fdef)) (shadowed dups : list name) (safe : list name) (nodes : list nat)
   : list name * list nat * bool :=
   match defs with
   | [] => (safe, nodes, false)
   | (i, d) :: tl =>
-      if mem (f_name d) shadowed then safe_pass tl shadowed safe nodes
+      if mem (f_name d) shadowed then safe_pass tl shadowed dups safe nodes
       else if fdef_pure d safe then
-        let '(s', n', _) := safe_pass tl shadowed (f_name d :: safe) (i :: nodes) in (s', n', true)
-      else safe_pass tl shadowed safe nodes
+        (* the definition is remembered; its NAME is whitelisted only when no other definition shares it *)
+        let safe' := if mem (f_name d) dups then safe else f_name d :: safe in
+        let '(s', n', _) := safe_pass tl shadowed dups safe' (i :: nodes) in (s', n', true)
+      else safe_pass tl shadowed dups safe nodes
   end.
 
-Fixpoint safe_loop (fuel : nat) (defs : list (nat * fdef)) (shadowed safe : list name) (nodes : list nat)
+Fixpoint safe_loop (fuel : nat) (defs : list (nat * fdef)) (shadowed dups safe : list name) (nodes : list nat)
   : list name * list nat :=
   match fuel with
   | 0 => (safe, nodes)
   | S k =>
-      let '(s', n', changed) := safe_pass defs shadowed safe nodes in
+      let '(s', n', changed) := safe_pass defs shadowed dups safe nodes in
       if changed
-      then safe_loop k (filter (fun p => negb (mem (f_name (snd p)) s')) defs) shadowed s' n'
+      then safe_loop k (filter (fun p => negb (existsb (Nat.eqb (fst p)) n')) defs) shadowed dups s' n'
       else (s', n')
   end.
 
@@ -260,10 +382,14 @@ Fixpoint number_from {A} (i : nat) (l : list A) : list (nat * A) :=
 Definition class_safe (nodes : list nat) (c : name * list nat) : bool :=
   forallb (fun i => existsb (Nat.eqb i) nodes) (snd c).
 
-Definition safe_callable_names (base : list name) (shadowed : list name) (defs : list fdef)
+(* [shadowed]: names also bound by something that is not a def (parameter, import, assignment / loop / with /
+   except target); [dups]: names shared by several def / class statements; [classes]: the classes without base
+   classes, keywords and decorators (the others are skipped by the code before it looks at their constructors) *)
+Definition safe_callable_names (base : list name) (shadowed dups : list name) (defs : list fdef)
            (classes : list (name * list nat)) : list name :=
-  let '(safe, nodes) := safe_loop (S (List.length defs)) (number_from 0 defs) shadowed base [] in
-  map fst (filter (class_safe nodes) classes) ++ safe.
+  let '(safe, nodes) := safe_loop (S (List.length defs)) (number_from 0 defs) shadowed dups base [] in
+  map fst (filter (fun c => negb (mem (fst c) shadowed) && negb (mem (fst c) dups) && class_safe nodes c) classes)
+  ++ safe.
 
 (* ---------------- reference semantics ---------------- *)
 Inductive callee :=
@@ -512,12 +638,13 @@ Fixpoint exec (s : stmt) (o : oracle) : sres :=
       let '(t1, o1) := eval ctx o in
       let '(t2, out, o2) := exec_ss b o1 in
       (t1 ++ [EvCall (CMeth false "__enter__"%string)] ++ t2 ++ [EvCall (CMeth false "__exit__"%string)], out, o2)
-  | SDef x decos evald cbody =>
+  | SDef x decos evald bases cbody =>
       let '(t1, o1) := eval_l decos o in
       let '(t2, o2) := eval_l evald o1 in
       let '(t3, out, o3) := exec_ss cbody o2 in
       match out with
-      | ONormal => (t1 ++ t2 ++ t3 ++ decorator_calls decos ++ [EvBind x], ONormal, o3)
+      | ONormal => (t1 ++ t2 ++ t3 ++ (if bases then [EvCall CDyn] else []) ++ decorator_calls decos ++ [EvBind x],
+                    ONormal, o3)
       | _ => (t1 ++ t2 ++ t3, out, o3)
       end
   | SOther => ([EvOther], ONormal, o)
@@ -611,7 +738,7 @@ Fixpoint plain_s (s : stmt) : bool :=
   | SFor t it b o => plain_t t && plain it && plain_ss b && plain_ss o
   | SWhile t b o => plain t && plain_ss b && plain_ss o
   | SWith ctx b => plain ctx && plain_ss b
-  | SDef _ decos evald cbody => plain_l decos && plain_l evald && plain_ss cbody
+  | SDef _ decos evald _ cbody => plain_l decos && plain_l evald && plain_ss cbody
   end
 with plain_ss (ss : stmts) : bool :=
   match ss with SNil => true | SCons s tl => plain_s s && plain_ss tl end.
